@@ -8,7 +8,7 @@ CONSTANTS
   Fmts = {"bc"}
   NFiles = {2}
   Lazy = {FALSE}
-  Touches = {"lookup", "getitem"}
+  Touches = {"lookup"}
   Variant = "design"
 CONSTRAINT Emit
 CONSTRAINT OnlyInit
